@@ -9,6 +9,7 @@ package main
 //	pe <fast> <rel> <delta> <gi> <si> <minov> <idn> <idd> <A> <QA> <B> <QB> [F=<frag>:<a0>:<b0>]
 //	pl ... same fields (reads longer than c08Small: the model replays the real path instead of running the DP)
 //	cons <A> <QA> <B> <QB> <path csv>
+//	fm <side 1=left 0=right> <gi> <si> <A> <QA> <B> <QB>   one fill + backtracking, both flat matrices compared
 //
 // Exec appends, after " | ", the data the Lean model takes as parameters (§3.4 of DESIGN.md: floats are
 // never modelled): the integer gap penalty, the 94-entry mismatch quality adjustment table and the
@@ -86,7 +87,11 @@ func (g *c08Gen) frag(n int, kind int) []byte {
 
 func (g *c08Gen) quals(n int) []byte {
 	q := make([]byte, n)
-	switch g.rng.Intn(6) {
+	switch g.rng.Intn(7) {
+	case 6: // the extremes of the table
+		for i := range q {
+			q[i] = []byte{0, 1, 40, 93}[g.rng.Intn(4)]
+		}
 	case 0:
 		for i := range q {
 			q[i] = 40
@@ -396,9 +401,65 @@ func (c08) Gen(rng *rand.Rand, tier string, emit func(string)) {
 	emit("cons 61636774 28282828 61746774 28282828 2,2,-2,0")
 	emit("cons 61636774 5d5d5d5d 61746774 5d5d5d5d 0,4")
 
-	n, nbig, ncons := 1500, 60, 400
+	// qualities at the extremes (0, 1, 40, 93) on every geometry, N / IUPAC reads, overlaps 0 / 1 / full,
+	// reads of unequal length, every option value
+	for _, qv := range [][2]byte{{0, 0}, {0, 93}, {1, 1}, {1, 40}, {93, 93}, {40, 93}, {93, 0}} {
+		for _, fast := range []int{0, 1} {
+			for _, rel := range []int{0, 1} {
+				emit(c08Line(fast, rel, 1, 0, 0, 1, 0, 1, frag[0:30], q(30, qv[0]), frag[12:44], q(32, qv[1]), frag[0:44], 0, 12)) // overlap 18
+				emit(c08Line(fast, rel, 1, 0, 0, 1, 0, 1, frag[0:24], q(24, qv[0]), frag[23:40], q(17, qv[1]), frag[0:40], 0, 23)) // overlap 1
+				emit(c08Line(fast, rel, 1, 0, 0, 0, 0, 1, frag[0:24], q(24, qv[0]), frag[24:40], q(16, qv[1]), nil, 0, 0))          // overlap 0 (abutting)
+				emit(c08Line(fast, rel, 1, 0, 0, 1, 0, 1, frag[5:35], q(30, qv[0]), frag[5:35], q(30, qv[1]), frag[5:35], 0, 0))   // full overlap
+				emit(c08Line(fast, rel, 0, 0, 0, 1, 0, 1, frag[0:9], q(9, qv[0]), frag[3:40], q(37, qv[1]), frag[0:40], 0, 3))      // very unequal lengths
+			}
+		}
+	}
+	nn := []byte("nnnnnnnnnnnnnnnnnnnn")
+	iu := []byte("acgtrymkswbdhvnacgtrymkswbdhvn")
+	for _, fast := range []int{0, 1} {
+		for _, rel := range []int{0, 1} {
+			emit(c08Line(fast, rel, 1, 0, 0, 4, 0, 1, nn, q(20, 40), nn[:15], q(15, 40), nil, 0, 0))
+			emit(c08Line(fast, rel, 1, 0, 0, 4, 5, 10, nn, q(20, 0), frag[0:18], q(18, 93), nil, 0, 0))
+			emit(c08Line(fast, rel, 5, 0, 0, 4, 5, 10, iu, q(30, 40), iu[8:30], q(22, 40), nil, 0, 0))
+			emit(c08Line(fast, rel, 5, 0, 0, 4, 5, 10, iu, q(30, 1), iu[8:30], q(22, 93), nil, 0, 0))
+			emit(c08Line(fast, rel, 0, 0, 0, 4, 9, 10, append(append([]byte{}, frag[0:12]...), append([]byte("nnnn"), frag[16:30]...)...), q(30, 40), frag[10:40], q(30, 40), nil, 0, 0))
+			// every threshold value around the actual overlap of 18 / identity 1
+			for _, mo := range []int{0, 17, 18, 19, 40} {
+				for _, id := range [][2]int{{0, 1}, {1, 1}, {99, 100}, {101, 100}} {
+					emit(c08Line(fast, rel, 1, 0, 0, mo, id[0], id[1], frag[0:30], q(30, 40), frag[12:44], q(32, 40), frag[0:44], 0, 12))
+				}
+			}
+		}
+	}
+	// flat matrices of both fills on hand-picked shapes (1x1, 1xn, nx1, equal, unequal)
+	for _, side := range []int{0, 1} {
+		emit(fmt.Sprintf("fm %d 0 0 %s %s %s %s", side, hx([]byte("a")), hx(q(1, 40)), hx([]byte("a")), hx(q(1, 40))))
+		emit(fmt.Sprintf("fm %d 0 0 %s %s %s %s", side, hx([]byte("a")), hx(q(1, 0)), hx([]byte("cagt")), hx(q(4, 93))))
+		emit(fmt.Sprintf("fm %d 1 2 %s %s %s %s", side, hx([]byte("cagtn")), hx(q(5, 1)), hx([]byte("g")), hx(q(1, 40))))
+		emit(fmt.Sprintf("fm %d 3 1 %s %s %s %s", side, hx(frag[0:12]), hx(q(12, 40)), hx(frag[6:18]), hx(q(12, 30))))
+		emit(fmt.Sprintf("fm %d 4 0 %s %s %s %s", side, hx(frag[0:7]), hx(q(7, 93)), hx(frag[2:16]), hx(q(14, 0))))
+	}
+
+	n, nbig, ncons, nfm := 1500, 60, 400, 300
 	if tier == "thorough" {
-		n, nbig, ncons = 9000, 500, 2500
+		n, nbig, ncons, nfm = 9000, 500, 2500, 2500
+	}
+	for i := 0; i < nfm; i++ {
+		la, lb := 1+rng.Intn(14), 1+rng.Intn(14)
+		if i%5 == 0 {
+			la = 1 + rng.Intn(3)
+		}
+		if i%7 == 0 {
+			lb = 1 + rng.Intn(3)
+		}
+		F := g.frag(la+lb, []int{0, 0, 1, 2, 3}[rng.Intn(5)])
+		A := g.mutate(F[:la], 0.1, 0, 0.1)
+		B := g.mutate(F[rng.Intn(la+1):][:lb], 0.1, 0, 0.1)
+		gi, si := 0, 0
+		if rng.Intn(2) == 0 {
+			gi, si = rng.Intn(len(c08Gaps)), rng.Intn(len(c08Scales))
+		}
+		emit(fmt.Sprintf("fm %d %d %d %s %s %s %s", rng.Intn(2), gi, si, hx(A), hx(g.quals(len(A))), hx(B), hx(g.quals(len(B)))))
 	}
 	for i := 0; i < n; i++ {
 		switch {
@@ -642,6 +703,7 @@ type c08Case struct {
 	F                                           []byte
 	a0, b0                                      int
 	path                                        []int
+	side                                        int
 }
 
 func c08Parse(c string) (*c08Case, bool) {
@@ -711,6 +773,23 @@ func c08Parse(c string) (*c08Case, bool) {
 			}
 			cs.a0, cs.b0 = a0, b0
 		}
+		return cs, true
+	case "fm":
+		if len(f) != 8 {
+			return nil, false
+		}
+		var v [3]int
+		for i := 0; i < 3; i++ {
+			x, err := strconv.Atoi(f[1+i])
+			if err != nil || x < 0 {
+				return nil, false
+			}
+			v[i] = x
+		}
+		if v[0] > 1 || v[1] >= len(c08Gaps) || v[2] >= len(c08Scales) || !hexes(f[4:8]) {
+			return nil, false
+		}
+		cs.side, cs.gi, cs.si = v[0], v[1], v[2]
 		return cs, true
 	case "cons":
 		if len(f) != 6 || !hexes(f[1:5]) {
@@ -840,6 +919,56 @@ func (c08) Exec(c string) (string, []Fail) {
 		}
 		fails = append(fails, c08ConsOracle("cons", cs, cs.path, seq, qual)...)
 		return fmt.Sprintf("c=%s q=%s m=%d", hx(seq), hx(qual), match), fails
+	}
+
+	if cs.op == "fm" {
+		left := cs.side == 1
+		stat("op:fm." + lr(left))
+		gap, scale := c08Gaps[cs.gi], c08Scales[cs.si]
+		ref := &c08Ref{A: cs.A, QA: cs.QA, B: cs.B, QB: cs.QB, scale: scale, g: obialign.VerifGapPenalty(gap, scale)}
+		la, lb := len(cs.A), len(cs.B)
+		var score int
+		var path, sm, pm []int
+		res := guardT(5*time.Second, func() string {
+			// on the shared arena: the matrices hold what the previous cases left there
+			score, path, sm, pm = obialign.VerifFillMats(left, cs.A, cs.QA, cs.B, cs.QB, gap, scale, c08Arena)
+			return "ok"
+		})
+		sc := make([]int, 0, la*lb)
+		for i := 0; i < la; i++ {
+			for j := 0; j < lb; j++ {
+				sc = append(sc, ref.s(i, j))
+			}
+		}
+		caseOverride = fmt.Sprintf("%s | %d %s", base, ref.g, c08Ints(sc))
+		if res != "ok" {
+			addf("fill."+lr(left)+"-"+res, "fill %s (la=%d lb=%d)", res, la, lb)
+			return res, fails
+		}
+		if len(sm) != (la+1)*(lb+1) || len(pm) != (la+1)*(lb+1) {
+			addf("fill.size", "matrices of %d / %d cells, expected %d", len(sm), len(pm), (la+1)*(lb+1))
+		}
+		if want, _ := ref.opt(left); score != want {
+			addf("fill."+lr(left)+"-optimum", "fill returns %d, optimum of the independent DP under the %s scheme %d", score, lr(left), want)
+		}
+		if !c08Consumes(path, la, lb) {
+			addf("fill."+lr(left)+"-consumes", "path %s does not consume (%d, %d)", c08PathStr(path), la, lb)
+		} else if ps := ref.pathScore(path, left); ps != score {
+			addf("fill."+lr(left)+"-path", "score %d, recomputed along the path %d", score, ps)
+		}
+		// the same fill on a fresh arena: every cell must be rewritten (no stale cell survives)
+		r2 := guardT(5*time.Second, func() string {
+			s2, p2, sm2, pm2 := obialign.VerifFillMats(left, cs.A, cs.QA, cs.B, cs.QB, gap, scale, obialign.MakePEAlignArena(1, 1))
+			if s2 != score || c08PathStr(p2) != c08PathStr(path) || c08Ints(sm2) != c08Ints(sm) || c08Ints(pm2) != c08Ints(pm) {
+				return "differs"
+			}
+			return "ok"
+		})
+		if r2 != "ok" {
+			addf("arena.fill-stale", "fill on the shared arena and on a fresh arena: %s", r2)
+		}
+		cm := func(v []int) string { return strings.ReplaceAll(c08Ints(v), " ", ",") }
+		return fmt.Sprintf("sc=%d p=%s M=%s P=%s", score, c08PathStr(path), cm(sm), cm(pm)), fails
 	}
 
 	gap, scale := c08Gaps[cs.gi], c08Scales[cs.si]
@@ -1121,6 +1250,68 @@ func (c08) Exec(c string) (string, []Fail) {
 				want := string(cs.A) + ".........." + string(cs.B)
 				if string(oseq) != want || len(oq) != len(oseq) {
 					addf("stats.join", "join mode: sequence is not A + 10 dots + B")
+				}
+			}
+		}
+		// ---- the fast-mode annotations and the effect of the options
+		fcA, okFc := geti("paring_fast_count")
+		ovA, okOv := geti("paring_fast_overlap")
+		fsA, okFs := an["paring_fast_score"].(float64)
+		if cs.fast && r1 == "ok" && md == "join" && !(okFc || okOv || okFs) {
+			// the fast annotations are written on the consensus record, which join mode discards
+			stat("annot:fast-dropped-in-join")
+		} else if cs.fast && r1 == "ok" {
+			if !okFc || !okOv || !okFs {
+				addf("annot.fast-missing", "fast mode: paring_fast_count/overlap/score present %v/%v/%v", okFc, okOv, okFs)
+			} else {
+				if fcA != fastCount || ovA != over {
+					addf("annot.fast-count", "paring_fast_count %d paring_fast_overlap %d, PEAlign returned %d / %d", fcA, ovA, fastCount, over)
+				}
+				if fsA != math.Round(fastScore*1000)/1000 {
+					addf("annot.fast-score", "paring_fast_score %v, PEAlign returned %v", fsA, fastScore)
+				}
+				if !cs.rel && vnum >= 0 && fsA != float64(fastCount) {
+					addf("annot.fast-absolute", "absolute fast score %v is not the 4-mer count %d", fsA, fastCount)
+				}
+				if cs.rel && vnum >= 0 && fsA != math.Round(float64(vnum)/float64(vden)*1000)/1000 {
+					addf("annot.fast-relative", "relative fast score %v is not %d/%d", fsA, vnum, vden)
+				}
+			}
+		} else if !cs.fast && (okFc || okOv || okFs) {
+			addf("annot.exact-fast", "exact mode: paring_fast_* annotations present")
+		}
+		if consumes && r3 == "ok" {
+			run := func(minov int, minid float64, stats bool) (*obiseq.BioSequence, string) {
+				o := obipairing.AssemblePESequences(seqA, seqB, gap, scale, cs.delta, minov, minid, stats, false,
+					cs.fast, cs.rel, c08Arena, &c08Shifts)
+				m, _ := o.Annotations()["mode"].(string)
+				return o, m
+			}
+			// one base more than the aligned length: always a join; no threshold: always the alignment
+			if o, m := run(al+1, 0, true); m != "join" || string(o.Sequence()) != string(cs.A)+".........."+string(cs.B) {
+				addf("option.min-overlap", "min-overlap %d > ali_length %d: mode %q", al+1, al, m)
+			}
+			if al >= 0 {
+				if o, m := run(al, 0, true); m != "alignment" || string(o.Sequence()) != string(cseq) {
+					addf("option.min-overlap-eq", "min-overlap = ali_length = %d, min-identity 0: mode %q", al, m)
+				}
+				if al > 0 && ma < al {
+					if _, m := run(0, 1, true); m != "join" {
+						addf("option.min-identity", "min-identity 1 with %d matches on %d columns: mode %q", ma, al, m)
+					}
+					if _, m := run(0, float64(ma)/float64(al), true); m != "alignment" {
+						addf("option.min-identity-eq", "min-identity = identity = %d/%d: mode %q", ma, al, m)
+					}
+				}
+				// without statistics: the mode is still there, the statistics are not
+				o, m := run(0, 0, false)
+				a2 := o.Annotations()
+				_, h1 := a2["score"]
+				_, h2 := a2["ali_length"]
+				_, h3 := a2["seq_a_single"]
+				_, h4 := a2["ali_dir"]
+				if m != "alignment" || h1 || h2 || h3 || h4 {
+					addf("option.no-stats", "withStats=false: mode %q, score/ali_length/seq_a_single/ali_dir present %v/%v/%v/%v", m, h1, h2, h3, h4)
 				}
 			}
 		}
